@@ -77,6 +77,14 @@ CHECKS = {
   "The full product of the quantifier (4 x 8 x 8 x 3 = 768 configurations; thorough x 3 kinds of non-selected descriptors) is enumerated completely: a helper process inherits three distinguishable candidates as fds 3,4,5, sets LISTEN_PID per case and calls Service.Listen(fallback). A 20-line model from the statement says which single endpoint must answer GetInfo with the helper's unique identity; no other candidate may answer; the helper must not panic.",
   "Trusted: the selection model (A.6); kernel fd inheritance via exec ExtraFiles. The negative probes are one-sided (15 ms).",
   "runtime monitor: exhaustive configuration enumeration through a helper subprocess + reference-model oracle on which endpoint answers", "DESIGN.md §4 C20"),
+ "C07": ("e-gen", "translation_validation",
+  "Per-program validation of the generator: the generator binary built from the tree under test is run (twice, for determinism) on every description of a set that covers the quantifier (23 fixed special cases, every type of depth <= 2 at method input / output / error parameter / alias body / nested positions, seeded random descriptions in 4 layouts, all filtered through the real parser so that only accepted descriptions count); every output is compiled in a batch module against the tree's varlink package by the Go compiler; the compiled packages report VarlinkGetName()/VarlinkGetDescription(), compared with the description. Generator exit status, panic text, file count, package clause and byte-identical second run are checked per program.",
+  "Trusted: the Go compiler as oracle of 'compiles and type-checks'; my description generator's reading of the domain (member names [A-Z][A-Za-z0-9]* outside the generator's fixed identifiers). One known finding (field named 'error' in an error) is listed in KNOWN_FINDINGS.json.",
+  "runtime validation per generated program: run the generator binary, compile its output with the Go compiler, execute and compare reported name/description (translation validation by execution)", "DESIGN.md §4 C07"),
+ "C08": ("e-gen", "translation_validation",
+  "Differential execution of every generated package: harness-written glue (own type printer) implements the generated interface and registers the generated client stubs; a real Service and a real Connection are connected through a recording proxy and every overridden method is driven with generated values of its declared types through Call / error reply / more-sequence / oneway / upgrade scenarios. Wire frames, the Go values received by the implementation, and the values or typed errors returned by the client stubs are compared with the abstract values per the varlink JSON mapping; plus MethodNotImplemented, MethodNotFound and InvalidParameter paths.",
+  "Trusted: the reflective runtime (genrt/rt.go: value generator, reference matcher of the JSON mapping, reflection bridge), Go compiler. nil and empty containers equal; null tolerated for absent optionals and empty containers on the wire.",
+  "runtime differential execution of generated client and service stubs against a reference encoding of the varlink JSON mapping (translation validation by execution)", "DESIGN.md §4 C08"),
 }
 
 NOT_YET = {}
@@ -130,6 +138,7 @@ def main():
             {"name": "e-ctx", "path": "harness/internal/eng/ctx_*.go", "serves_properties": ["C17", "C18"], "kind_free_text": "cancellation/deadline matrix, stream-integrity monitor, goroutine-leak monitor"},
             {"name": "e-addr", "path": "harness/internal/eng/addr_c19.go", "serves_properties": ["C19"], "kind_free_text": "address grammar against Bind/Listen/NewConnection"},
             {"name": "e-activ", "path": "harness/internal/eng/activ_c20.go", "serves_properties": ["C20"], "kind_free_text": "helper process under every activation environment"},
+            {"name": "e-gen", "path": "harness/internal/eng/gen_c07.go, harness/internal/eng/genrt/rt.go", "serves_properties": ["C07", "C08"], "kind_free_text": "generator binary -> go build of a batch module -> differential execution of the generated stubs"},
             {"name": "e-client", "path": "harness/internal/eng/client_c11.go", "serves_properties": ["C11"], "kind_free_text": "real Connection against a scripted raw server with death offsets"},
         ]),
         "checks": checks,
